@@ -2,7 +2,7 @@
 //!  A|W|lookup|initaddr|initsize|regs|membase|memhex|init_text|d1addr|d1text|...
 //!     SymbolFile::from_bytes + walk_frame with the mock walker (word size W)
 //!  B|arch|ctxregs|valid|stackbase|stackhex|initaddr|initsize|init_text|d1addr|d1text|...
-//!     one walk_stack step through the real CfiStackWalker (arch = x86|amd64|arm64|arm|mips|mips64)
+//!     one walk_stack step through the real CfiStackWalker (arch = x86|amd64|arm64|arm64_old|arm|mips|mips64)
 //!  M|W|lookup|regs|membase|memhex|REC|REC|...   REC = initaddr;initsize;init_text;d1addr;d1text;...
 //!     several INIT records (disjoint ranges, any file order) in one symbol file, mock walker
 //! answers: A, M: S|cfa=..|ra=..|regs=n=v,..|cleared=n,..   or N (walk failed) or E (file rejected)
